@@ -12,9 +12,10 @@ HARNESSES = [
     ("crypto", ["crypto/zz_verif_c03_test.go", "crypto/zz_verif_c03cfg_test.go"], "c03ks"),
     ("crypto/storage/external", ["crypto/storage/external/zz_verif_c03_test.go"], "c03ext"),
     ("crypto/api/v1", ["crypto/api/v1/zz_verif_c03_test.go", "crypto/api/v1/zz_verif_c03b_test.go"], "c03api"),
+    ("crypto/cmd", ["crypto/cmd/zz_verif_c03_test.go"], "c03exp"),
 ]
 PKG, HARNESS = HARNESSES[2][0], HARNESSES[2][1]   # crypto (ks)
-PARTS = {"c03fs": "fs", "c03vault": "vault", "c03ks": "ks", "c03api": "api", "c03ext": "ext"}
+PARTS = {"c03fs": "fs", "c03vault": "vault", "c03ks": "ks", "c03api": "api", "c03ext": "ext", "c03exp": "exp"}
 
 REQUIRED = [
     "kid_confined", "kid_confined_vault", "valid_kid_bytes", "kid_pattern_language", "uuid_names_confined",
@@ -39,6 +40,10 @@ REQUIRED = [
     "configured_backend_validates", "configured_backend_refuses_invalid_names", "configured_fs_backend_confined",
     "configure_strict_needs_explicit_storage", "configure_default_is_fs", "configure_unknown_storage", "configure_backend_kind",
     "configure_failure_keeps_backend", "azure_new_ok", "vault_new_ok",
+    # deepening round 3: key export command crypto/cmd fs2vault (NutsProofs.Props.C03Exp)
+    "fact_export_loop_shape", "fact_export_error_wording", "fact_fs2vault_target_wrapped", "wrappedSave_gated", "wrappedPut_gated",
+    "export_lists_only_listed_names", "export_target_entries_valid_and_faithful", "export_output_independent_of_key_material",
+    "fs2vault_new_entries_confined",
     "fact_external_name_to_path", "external_target_confined", "external_valid_name_not_dot_segment", "fs_list_roundtrip", "fs_listed_name_shape", "fs_list_separator_not_checked",
 ]
 
@@ -74,7 +79,7 @@ def go_clean(p: bytes) -> bytes:
 def run(ctx):
     ctx.level = "partial"
     ctx.facts()
-    thms = ctx.build_and_audit(["NutsProofs.Props.C03", "NutsProofs.Props.C03Api", "NutsProofs.Props.C03Cfg"])
+    thms = ctx.build_and_audit(["NutsProofs.Props.C03", "NutsProofs.Props.C03Api", "NutsProofs.Props.C03Cfg", "NutsProofs.Props.C03Exp"])
     for r in REQUIRED:
         if not any(t.endswith("Props." + r) for t in thms):
             ctx.oblige("thm-present:" + r, False, "theorem missing or its module does not build")
@@ -673,6 +678,68 @@ def run(ctx):
                                                  "cfg-wiring.jsonl", ops[i])
         ctx.oblige("oracle:configured-backend-is-the-validating-wrapper-of-the-configured-kind(impl)", cfg_bad == 0, f"{cfg_bad}")
         dist["configure"] = {"ops": len(impl), "outcomes": {str(k): v for k, v in kinds.most_common(24)}}
+
+    # ------------------------------------------------------------------ key export command (crypto/cmd fs2vault / fsToOtherStorage)
+    if "exp" in outs:
+        ops, impl, model, bad, out = outs["exp"]
+        total += len(impl)
+        exp_bad = 0
+        ekinds = Counter()
+        SUF = b"_private.pem"
+        kid_rx = re.compile(rb"(?:[0-9a-zA-Z_\- :#.]|%[0-9a-fA-F]{2})+")
+
+        def safe_entry(nb):
+            return kid_rx.fullmatch(nb) is not None and nb not in (b".", b"..")
+        for i, line in enumerate(impl):
+            op = json.loads(ops[i]) if i < len(ops) and ops[i] else {}
+            mx = re.fullmatch(r'(fsexport|fs2vault) keys=\[([0-9a-f,]*)\] err=(-|".*") (target|puts)=\[([0-9A-Za-z:?,]*)\]', line)
+            if not mx:
+                found_violation |= ctx.violation("C03:exp:panic-or-garbage", line[:200], "exp-garbage.jsonl", ops[i])
+                continue
+            files = [unhex(x) for x in (op.get("files") or [])]
+            content = dict(zip([unhex(x) for x in (op.get("cnames") or [])], (op.get("ckinds") or [])))
+            listed = [f.rsplit(b"/", 1)[-1][:-len(SUF)] for f in files if f.rsplit(b"/", 1)[-1].endswith(SUF[1:]) and len(f.rsplit(b"/", 1)[-1]) > len(SUF)]
+            pre = [unhex(x) for x in (op.get("pre") or [])]
+            exported = [unhex(x) for x in mx.group(2).split(",") if x]
+            distinct.add(("exp", tuple(files), tuple(sorted(content.items())), tuple(pre), tuple((op.get("faults") or []))))
+            ekinds[mx.group(1) + ":" + ("complete" if mx.group(3) == "-" else mx.group(3)[1:30])] += 1
+            why = None
+            # the property's clauses on the implementation's own output: (S3) nothing is stored outside the key namespace,
+            # (S2/S4) a key is stored only under the name of the file it came from, the command prints names only
+            if any(n not in listed for n in exported):
+                why = "command-printed-a-name-the-directory-does-not-list"
+            if mx.group(4) == "target":
+                ents = [x.split(":") for x in mx.group(5).split(",") if x]
+                new = [(unhex(h), k) for h, k in ents][len(pre):]
+                if [unhex(h) for h, _ in ents][:len(pre)] != pre:
+                    why = "existing-target-entry-changed"
+                for nb, k in new:
+                    if not safe_entry(nb):
+                        why = "key-stored-under-a-name-outside-the-key-namespace"
+                    elif nb not in listed:
+                        why = "key-stored-under-a-name-the-directory-does-not-list"
+                    elif "K" + content.get(nb, "?") != k:
+                        why = "key-stored-under-another-files-name"
+                if sorted(exported) != sorted(nb for nb, _ in new):
+                    why = why or "printed-names-differ-from-stored-names"
+            else:
+                want_pfx = b"/v1/kv/nuts-private-keys/"
+                puts = [x.split(":", 1) for x in mx.group(5).split(",") if x]
+                for meth, hx in puts:
+                    pth = unhex(hx)
+                    seg = pth[len(want_pfx):] if pth.startswith(want_pfx) else None
+                    if seg is None or not safe_entry(seg):
+                        why = "key-material-sent-to-a-vault-path-outside-the-key-namespace"
+                    elif seg not in listed or content.get(seg, "bad") == "bad":
+                        why = "key-material-sent-under-a-name-without-a-key-file"
+                if sorted(exported) != sorted(unhex(hx)[len(want_pfx):] for _, hx in puts):
+                    why = why or "printed-names-differ-from-vault-writes"
+            if why:
+                exp_bad += 1
+                found_violation |= ctx.violation(f"C03:exp:{why}", f"{mx.group(1)} over files {[f.decode('latin1') for f in files][:8]}: {line[:300]}",
+                                                 "exp-export.jsonl", ops[i])
+        ctx.oblige("oracle:export-stores-keys-only-under-safe-listed-names-with-their-own-key(impl)", exp_bad == 0, f"{exp_bad}")
+        dist["key_export_command"] = {"ops": len(impl), "outcomes": {str(k): v for k, v in ekinds.most_common(12)}}
 
     # ------------------------------------------------------------------ correspondence
     nbad = 0
